@@ -22,8 +22,13 @@ def blobs(rng, d=None, n_classes=None, n_per=None, dyadic=False):
     n_per = n_per or max(4, int(np.ceil(4 * d / n_classes)) + int(rng.randint(0, 4)))
     centers = rng.randn(n_classes, d) * 3
     A = rng.randn(d, d) * 0.7 + np.eye(d)
-    X = np.vstack([centers[c] + rng.randn(n_per, d).dot(A) for c in range(n_classes)])
-    y = np.repeat(np.arange(n_classes), n_per)
+    # class sizes: balanced half of the time, otherwise some classes up to three times larger than the smallest
+    sizes = np.full(n_classes, n_per)
+    if rng.rand() < 0.5:
+        sizes = n_per + rng.randint(0, 2 * n_per + 1, size=n_classes)
+        sizes[int(rng.randint(n_classes))] = n_per
+    X = np.vstack([centers[c] + rng.randn(sizes[c], d).dot(A) for c in range(n_classes)])
+    y = np.repeat(np.arange(n_classes), sizes)
     p = rng.permutation(len(y))
     X, y = X[p], y[p]
     if dyadic:
@@ -240,6 +245,25 @@ def fitted(name, rng, d=None, params=None, dyadic=False, data=None, preprocessor
     return est, X, y, args
 
 
+def documented_prior(kind, tuples, array=None):
+    """the matrix the documentation gives for a prior / init option on these training tuples (None when it is not
+    determined: 'random'); 'covariance' = (pseudo-)inverse covariance of the DISTINCT points of all tuple positions"""
+    tuples = np.asarray(tuples, dtype=float)
+    d = tuples.shape[-1]
+    if kind == 'identity':
+        return np.eye(d), 1.0
+    if kind == 'array':
+        return np.asarray(array, dtype=float), 1.0
+    if kind == 'covariance':
+        pts = np.unique(tuples.reshape(-1, d), axis=0)
+        C = np.atleast_2d(np.cov(pts, rowvar=False))
+        w = np.linalg.eigvalsh(C)
+        if w.min() <= 1e3 * w.max() * d * 2.3e-16:
+            return None, None                       # at the cut-off of the pseudo-inverse: either treatment is documented
+        return np.linalg.inv(C), float(w.max() / w.min())
+    return None, None
+
+
 LOWRANK = ['LMNN', 'NCA', 'MLKR', 'LFDA', 'RCA']
 
 
@@ -277,6 +301,17 @@ def population(rng, reps=1, lowrank=True):
             except Exception:
                 continue
             out.append((f'{name}[{",".join(f"{k}={v}" for k, v in prm.items())};unit={unit:g}]', est, X, y))
+        # strongly unbalanced classes in a higher dimension (one class not larger than the number of features)
+        for name in ('LFDA', 'LMNN', 'NCA', 'RCA_Supervised'):
+            d = int(rng.randint(6, 9)); small = int(rng.randint(4, d + 1)); big = 4 * d + int(rng.randint(0, 10))
+            centers = rng.randn(2, d) * 2
+            X = np.vstack([centers[0] + rng.randn(small, d), centers[1] + rng.randn(big, d)])
+            y = np.array([0] * small + [1] * big); pm = rng.permutation(len(y)); X, y = X[pm], y[pm]
+            try:
+                est, X, y, args = fitted(name, rng, data=(X, y), params=(dict(n_chunks=d + 3, chunk_size=2) if name == 'RCA_Supervised' else None))
+            except Exception:
+                continue
+            out.append((f'{name}[classes {small}+{big}, d={d}]', est, X, y))
     return out
 
 
